@@ -117,6 +117,9 @@ func (rc *RunCtx) Note(cr *CheckRun) {
 	rc.Tracef("Check(name=%q %v clock=%v) -> verdict=%s stop=%s invocations=%d sim=%v", cr.Name, cr.Flags, cr.Clock, cr.Verdict, cr.W.StopWhy, len(cr.W.Invs), cr.SimElapsed)
 }
 
+// curTier: the thorough tier also samples larger bounds (longer programs, more goroutines and operations).
+var curTier string
+
 type Scenario func(rc *RunCtx)
 
 var scenarios = map[string]Scenario{}
@@ -130,6 +133,7 @@ func runOne(spec *Spec, idx int, tape *Tape) (res Result) {
 	}
 	defer os.RemoveAll(dir)
 	rc := &RunCtx{T: tape, Tier: spec.Tier, Dir: dir, Stats: map[string]int{}, Verbose: spec.Verbose}
+	curTier = spec.Tier
 	func() {
 		defer func() {
 			if r := recover(); r != nil {
